@@ -2,3 +2,4 @@ import GradysProofs.Properties.C01
 import GradysProofs.Properties.C02
 import GradysProofs.Properties.C03
 import GradysProofs.Properties.C19
+import GradysProofs.Properties.C20
